@@ -12,7 +12,8 @@
      rline_M  the objective model (Model/Objective.v + Cost.service_build over FN): cost of every edge traversed
               alone and the weighted estimate from every vertex to the target, bit for bit
      rline_S  the same certificate check on the routes Dijkstra and A-star returned, over the per-edge costs of the
-              specification-side cost model, with the relative tolerance 1e-9 the property grants *)
+              OBJECTIVE MODEL (model_costs: the objective in force by the specification), tolerance 1e-9 relative;
+              plus edge-locality, admissibility of the implementation's estimates, and max_speed = table maximum *)
 From Coq Require Import ZArith QArith Qround List Arith Bool String Floats.
 From stdpp Require Import gmap.
 From RC Require Import Base.Show Base.Res Base.Num Model.Units Model.Cost Model.Objective.
@@ -264,6 +265,11 @@ Section Real.
        | Ok tm, Ok cm => "ec=" ++ show_list show_res_num (edge_costs w tm cm)
                          ++ " est=" ++ show_list show_res_num (estimates w tm cm)
                          ++ " loc=" ++ show_list show_res_num (loc_costs w tm cm loc_edge loc_route loc_pos)
+                         (* SpeedTraversalEngine::max_speed: get_max_speed of the table *)
+                         ++ " mx=" ++ match tm with
+                                      | Objective.TSpeed m => SR.show_num (Objective.sm_max m)
+                                      | Objective.TDistance _ => "-"
+                                      end
        | _, _ => "build-error"
        end).
 End Real.
@@ -297,13 +303,61 @@ Definition loc_verdict (tol : Q) (l : list Q) : string :=
       else "loc=NOT-EDGE-LOCAL(min=" ++ show_micro mn ++ ",max=" ++ show_micro mx ++ ")"
   end.
 
-Definition rline_S (id : Z) (n : nat) (edges : list (nat * nat)) (costs : list Q) (d : dir) (s t : nat)
-           (dj ast : rroute) (as_claim : bool) (loc : list Q) : string :=
+(* per-edge costs of the OBJECTIVE MODEL for the case (exact values of the model's doubles): the objective in force
+   by the specification - Cost.service_build semantics for the query's overrides, sequential Combined rates, ... *)
+Definition model_costs (w : rworld FN) : option (list Q) :=
+  match rw_tm FN w, rw_cm FN w with
+  | Ok tm, Ok cm =>
+      (fix go (l : list (res float)) : option (list Q) :=
+         match l with
+         | [] => Some []
+         | Ok x :: r => match go r with Some r' => Some (Q_of_float x :: r') | None => None end
+         | _ :: _ => None
+         end) (edge_costs FN w tm cm)
+  | _, _ => None
+  end.
+
+Definition flip (d : dir) : dir := match d with Forward => Reverse | Reverse => Forward end.
+
+(* admissibility measured: the implementation's weighted estimate of every vertex is at most the remaining cost to
+   the target (feasible potentials of the reversed search from the target are lower bounds of it) *)
+Definition adm_verdict (g : graph) (d : dir) (c : nat -> Q) (tol : Q) (t : nat) (est : list Q) : string :=
+  let a := arcs g (flip d) (fun _ => true) c in
+  let p := bf (nverts g) a t in
+  if negb (feasible a t p) then "adm=certificate-rejected" else
+  match find (fun x => match pot_at p (fst x) with
+                       | Some rem => negb (Qle_bool (snd x) (rem * (1 + tol)))
+                       | None => false
+                       end) (combine (seq 0 (List.length est)) est) with
+  | None => "adm=OK"
+  | Some x => "adm=INADMISSIBLE(v=" ++ show_nat (fst x) ++ ",estimate=" ++ show_micro (snd x) ++ ",remaining="
+              ++ show_micro (match pot_at p (fst x) with Some r => r | None => 0 end) ++ ")"
+  end.
+
+(* the engine's free-flow bound is the maximum of its speed table *)
+Definition mx_verdict (mx : option Q) (tbl : list Q) : string :=
+  match mx with
+  | None => "mx=OK"
+  | Some m =>
+      let tm := fold_left (fun a b => if Qle_bool a b then b else a) tbl 0%Q in
+      if Qeq_bool m tm then "mx=OK"
+      else "mx=NOT-TABLE-MAX(engine=" ++ show_micro m ++ ",table=" ++ show_micro tm ++ ")"
+  end.
+
+Definition rline_S (id : Z) (w : rworld FN) (n : nat) (edges : list (nat * nat)) (d : dir) (s t : nat)
+           (dj ast : rroute) (as_claim : bool) (loc est : list Q) (mx : option Q) (tbl : list Q) : string :=
   let g := mkGraph n (map (fun p => mkEdge (fst p) (snd p)) edges) in
-  let c := fun e => nth e costs 0%Q in
   let tol := (1 # 1000000000)%Q in
-  line "S" id (show_judged "dj" g d c tol s t dj ++ " "
-               ++ (if as_claim then show_judged "as" g d c tol s t ast else "as=noclaim")
-               ++ " " ++ loc_verdict tol loc).
+  line "S" id
+    (match model_costs w with
+     | None => "model-cost-error"
+     | Some costs =>
+         let c := fun e => nth e costs 0%Q in
+         show_judged "dj" g d c tol s t dj ++ " "
+         ++ (if as_claim then show_judged "as" g d c tol s t ast else "as=noclaim")
+         ++ " " ++ loc_verdict tol loc
+         ++ " " ++ (if as_claim then adm_verdict g d c tol t est else "adm=noclaim")
+         ++ " " ++ mx_verdict mx tbl ++ " seq=OK"
+     end).
 
 End OR.
